@@ -17,10 +17,11 @@ contract(F, "compositions", props=["C10", "C09", "C01"],
                             "forall(lambda j: implies(0 <= j and j < k, 0 <= min_sizes[j]))",
                             "forall(lambda j: implies(0 <= j and j < k, min_sizes[j] <= w[j]))",
                             "forall(lambda j: implies(0 <= j and j < k, is_none(max_sizes[j]) or w[j] <= val(max_sizes[j])))"],
-                   "hints": {"yieldfrom#0": "w[1:]"}},
-         loops={0: dict(invariant=["found or w[0] >= min_sizes[0] + _i0"])},
-         ghost_stmts={"before:if#0": ["use lemma_sum_nonneg(w)", "use lemma_sum_ge(w, min_sizes)",
-                                      "when forall(lambda j: implies(0 <= j and j < k, not is_none(max_sizes[j]))): use lemma_sum_ge(max_sizes, w)"],
-                      "before:loop#0": ["use lemma_sum_nonneg(w[1:])"]},
+                   "hints": {"yieldfrom#0": "w[1:]"},
+                   "invariants": {0: ["found or w[0] >= min_sizes[0] + _i0"]},
+                   "ghost_stmts": {"before:if#0": ["use lemma_sum_nonneg(w)", "use lemma_sum_ge(w, min_sizes)",
+                                                   "when forall(lambda j: implies(0 <= j and j < k, not is_none(max_sizes[j]))): "
+                                                   "use lemma_sum_ge(max_sizes, w)"],
+                                   "before:loop#0": ["use lemma_sum_nonneg(w[1:])"]}},
          notes="sound (every yielded composition has k parts summing to n within the given bounds) and complete (every such "
                "composition with non-negative minimum sizes is yielded)")
